@@ -627,6 +627,7 @@ V_Generate(e) ==
      ELSE IF d("bip44") # "same" THEN "generate-" \o d("bip44")
      ELSE IF d("bip49") # "same" THEN "generate-" \o d("bip49")
      ELSE IF d("bip84") # "same" THEN "generate-" \o d("bip84")
+     ELSE IF "jsonbad" \in DOMAIN e THEN "generate-json-rendering-not-json-or-of-another-shape"
      ELSE IF "jsonfile" \in DOMAIN e /\ JsonDeserialize(e.jsonfile) # e.tree THEN "generate-json-does-not-parse-back"
      ELSE "ok"
 
